@@ -297,7 +297,7 @@ def run(ctx):
     for al, be, ga in itertools.product(angs, repeat=3):
         ca, cb, cg = (math.cos(math.radians(x)) for x in (al, be, ga))
         g = 1 - ca * ca - cb * cb - cg * cg + 2 * ca * cb * cg
-        if g <= 0 or math.sqrt(g) < 0.02:
+        if g <= 0 or not (math.sqrt(g) >= 0.02):
             continue
         for a, b, c in itertools.product(LENGTHS if ctx.thorough else (1.0, 7.3, 100.0), repeat=3):
             cells.append((idx, (a, b, c, float(al), float(be), float(ga))))
